@@ -28,7 +28,7 @@ def cases(draw, tier):
     m = rho + draw(st.integers(0, 2))
     n = [m + draw(st.integers(0, 3)) for _ in range(d)]
     return {"n": n, "r": r, "seed": draw(gen.seeds), "m": m, "cap": rho + draw(st.integers(0, 2)), "sseed": draw(st.integers(0, 10 ** 6)),
-            "scale10": draw(st.sampled_from([0, 0, 2, -2, -9, -12, -30, 12, 30, -100, 100])), "float_cap": draw(st.booleans()),
+            "scale10": draw(st.sampled_from([0, 0, 2, -2, -9, -12, -30, 12, 30, -100, 100])), "float_cap": draw(st.booleans()), "cap_kind": draw(st.integers(0, 4)),
             "seed_kind": draw(st.sampled_from(["int", "int", "generator", "generator_philox"])),
             # how the caller stores the sample values: a measured table may well be an integer array (not float32: NumPy then factorises in single precision); generic integer
             # cores (-4..4) give integer-valued tensors of the same TT-rank whose values every such dtype holds exactly
@@ -64,7 +64,12 @@ def prop(case, ctx):
         y = y.astype(ydt)
         ctx.check(np.array_equal(y.astype(float), F[tuple(I.T)]), "harness: sample values not exactly representable")
     ctx.label("values_as:" + ydt)
+    # the cap is documented as "int, float": an int, a float with a fraction, or an integer-valued float / NumPy scalar
     cap = case["cap"] + (0.5 if case["float_cap"] else 0)
+    capk = case.get("cap_kind", 0)
+    if not case["float_cap"] and capk:
+        cap = [float, np.float64, np.int64, np.float32][capk - 1](cap)
+        ctx.label("cap_as:" + type(cap).__name__)
     Y = ctx.lib(teneva.svd_incomplete, I, y, idx, idx_many, 1e-10 * max(nrm, 1e-300) / np.sqrt(F.size), cap)
     why = oracle.wellformed(Y, n)
     ctx.check(why is None, f"svd_incomplete: result not well-formed / wrong shape: {why}")
